@@ -7,6 +7,8 @@ mod standalone;
 mod standalone_read_handle;
 
 pub use standalone::StandaloneEngine;
+#[cfg(d_engine_verif)]
+pub use embedded_read_handle::verif_embedded_lease_read_is_local;
 pub(crate) use standalone_read_handle::StandaloneReadHandle;
 
 /// Embedded engine generic over any `(SE, SM)` pair.
